@@ -269,7 +269,7 @@ func (e *SEnv) evalBool(sx *SX) string {
 // local variable it named on the tree the baseline was recorded on.
 var localHints = map[string]map[string]int{}
 
-var smtFuncs = map[string]string{"u2f": "F", "f2u": "Int", "fdiv": "F", "fmul": "F", "fsub": "F", "fround": "F", "fabs": "F",
+var smtFuncs = map[string]string{"u2f": "F", "f2u": "Int", "fdiv": "F", "fmul": "F", "fsub": "F", "fround": "F", "fabs": "F", "ffloor": "F", "fceil": "F", "ftrunc": "F",
 	"fle": "Bool", "flt": "Bool", "nn": "Int", "tdiv": "Int", "chancap": "Int"}
 
 func (e *SEnv) eval(sx *SX) Val {
